@@ -22,6 +22,10 @@ class CannotMerge(Exception):
     pass
 
 
+class PendingRead(EngineError):
+    """A havocked trace list is read before a postcondition has defined it by an equation."""
+
+
 # ------------------------------------------------------------------------------------------------
 # immutable symbolic scalars
 
